@@ -70,6 +70,7 @@ def run(ctx) -> None:
     r1_read_only(ctx)
     r2_reference_analysis(ctx)
     r3_exclusions_uniqueness(ctx)
+    r4_validator_state(ctx)
 
 
 def r1_read_only(ctx) -> None:
@@ -300,3 +301,49 @@ def r3_exclusions_uniqueness(ctx) -> None:
         else:
             r.violation("C19.R3", f.qual, short(comps[0], 120) if comps else "finalize", "collision groups must be exactly those with more than one member", f.loc)
     r.floor("C19.R3", 9)
+
+
+VALIDATOR_STATE = {
+    # (class, attribute) written outside __init__ -> why no verdict can depend on an earlier rule through it
+    ("sigma.validators.base.SigmaRuleValidator", "rule"): "the rule being validated, stored at the top of every validate() call before anything reads it",
+    ("sigma.validators.core.metadata.DuplicateFilenameValidator", "filenames_to_rules"): "uniqueness table, judged by C19.R3",
+    ("sigma.validators.core.metadata.DuplicateFilenameValidator", "filenames_to_paths"): "uniqueness table, judged by C19.R3",
+    ("sigma.validators.core.metadata.DuplicateTitleValidator", "titles"): "uniqueness table, judged by C19.R3",
+    ("sigma.validators.core.metadata.IdentifierUniquenessValidator", "ids"): "uniqueness table, judged by C19.R3",
+    ("sigma.validators.core.tags.ATTACKTagValidator", "allowed_tags"): "lazily loaded reference data (MITRE ATT&CK), independent of any rule",
+    ("sigma.validators.core.tags.D3FENDTagValidator", "allowed_tags"): "lazily loaded reference data (MITRE D3FEND), independent of any rule",
+    ("sigma.validators.core.logsources.SpecificInsteadOfGenericLogsourceValidator", "logsource"): "per-rule context stored in validate() immediately before super().validate(rule) reads it",
+    ("sigma.validators.core.logsources.SpecificInsteadOfGenericLogsourceValidator", "eventid_mappings"): "per-rule context, as above",
+    ("sigma.validators.core.logsources.SpecificInsteadOfGenericLogsourceValidator", "disallowed_logsource_event_ids"): "per-rule context, as above",
+}
+
+
+def r4_validator_state(ctx) -> None:
+    r, prog = ctx.r, ctx.prog
+    r.rule("C19.R4", "a validator carries nothing from one rule to the next except the reviewed uniqueness tables and per-call context: every attribute of a validator object that is written (or mutated in place) outside __init__ is in the reviewed table")
+    base = "sigma.validators.base.SigmaRuleValidator"
+    n = 0
+    for cq in sorted(prog.subclasses(base)):
+        ci = prog.cls(cq)
+        for name, f in sorted(ci.methods.items()):
+            if name in ("__init__", "__post_init__"):
+                continue
+            for nd in walk_no_nested(f.node):
+                tgts: list[ast.AST] = []
+                if isinstance(nd, (ast.Assign, ast.AugAssign, ast.AnnAssign)):
+                    tgts = list(nd.targets) if isinstance(nd, ast.Assign) else [nd.target]
+                elif isinstance(nd, ast.Call) and isinstance(nd.func, ast.Attribute) and nd.func.attr in ("append", "extend", "add", "update", "setdefault", "pop", "clear", "insert", "remove", "__setitem__"):
+                    tgts = [nd.func.value]
+                for t in tgts:
+                    b = t
+                    while isinstance(b, ast.Subscript):
+                        b = b.value
+                    if isinstance(b, ast.Attribute) and isinstance(b.value, ast.Name) and b.value.id == "self":
+                        n += 1
+                        loc = f"{f.module.relpath}:{nd.lineno}"
+                        owner = next((k for k in prog.mro(cq) if (k, b.attr) in VALIDATOR_STATE), None)
+                        if owner:
+                            r.ok("C19.R4", f.qual, f"self.{b.attr} — {VALIDATOR_STATE[(owner, b.attr)]}", loc)
+                        else:
+                            r.violation("C19.R4", f.qual, short(prog.enclosing_stmt(nd), 100), f"the validator object keeps self.{b.attr} across validate() calls: what it reports for a rule can depend on the rules validated before (e.g. a memoised issue list still naming the first rule that had the value)", loc)
+    r.floor("C19.R4", 10)
